@@ -32,6 +32,8 @@ class Replay:
     def __init__(self, prog: Program, fn: FuncInfo, path: Path, sym: Optional[Sym] = None):
         self.prog, self.fn, self.path = prog, fn, path
         self.sym = sym or Sym.for_function(prog, fn)
+        if self.sym.inline is None:
+            self.sym.inline = make_inliner(prog, fn)
         self.facts: List[Fact] = []
         self.nfacts_before: List[int] = []      # per event index
         self.env_before: List[Dict[str, Any]] = []
@@ -106,3 +108,53 @@ class Replay:
         s = self.sym.copy()
         s.env = dict(self.env_before[i])
         return s
+
+
+def make_inliner(prog: Program, fn: FuncInfo, depth: int = 0):
+    """Hook for Sym: symbolic value of a call to a small pure helper of the package (static method or module
+    function whose body is assignments / the sum-loop idiom / one return), e.g. Aa55ProtocolCommand._checksum."""
+    from .paths import enumerate_paths
+
+    def inline(sym: Sym, call: ast.Call):
+        if depth > 2:
+            return None
+        f = call.func
+        target = None
+        if isinstance(f, ast.Name):
+            b = prog.lookup(fn.module, f.id)
+            if b and b[0] == "func":
+                target = b[1]
+        elif isinstance(f, ast.Attribute):
+            owner = None
+            if isinstance(f.value, ast.Name):
+                b = prog.lookup(fn.module, f.value.id)
+                if b and b[0] == "class":
+                    owner = b[1]
+                elif f.value.id in ("self", "cls") and fn.cls is not None:
+                    owner = fn.cls
+            if owner is not None:
+                m = prog.find_method(owner, f.attr)
+                if m is not None and (m.is_static or m.is_classmethod):
+                    target = m
+        if target is None or target.is_async or call.keywords:
+            return None
+        body = [s for s in target.node.body if not (isinstance(s, ast.Expr) and isinstance(s.value, ast.Constant))]
+        if not body or not isinstance(body[-1], ast.Return) or body[-1].value is None:
+            return None
+        for s in body[:-1]:
+            if isinstance(s, ast.Assign) or (isinstance(s, ast.For) and sum_loop_idiom(s) is not None):
+                continue
+            return None
+        params = target.params[1:] if target.is_classmethod else target.params
+        if len(params) != len(call.args):
+            return None
+        paths = enumerate_paths(prog, target)
+        if not paths:
+            return None
+        inner = Sym.for_function(prog, target)
+        inner.inline = make_inliner(prog, target, depth + 1)
+        for p_, a in zip(params, call.args):
+            inner.bind(p_, sym.lin(a))
+        rp = Replay(prog, target, paths[0], inner)
+        return rp.sym.lin(body[-1].value)
+    return inline
